@@ -506,6 +506,143 @@ pub fn one_c18(prop: &str, c: &Case, rep: &mut Report) {
     note_case(rep, c, nontrivial);
 }
 
+/// Long clip histories of ONE cell: a corner of a box cell is shaved tens of thousands of times (every clip removes the three
+/// vertices of the previous cut and creates three), and at chosen history lengths - around 2^8, 2^15, 2^16, 2^17 effective
+/// clips - a clone is clipped by probe planes that touch planes never clipped before (an opposite corner, an edge of two
+/// untouched walls, a cut through the middle), in several storage orders and dual rotations. Each result must be a closed
+/// polytope with the volume of the brute-force reference, and all variants must agree. Everything else in the harness clips a
+/// cell a few hundred times at most (a cell of a tessellation lives for one construction).
+fn c18_history(prop: &str, seed: u64, k: u64, nclips: usize, rep: &mut Report) {
+    let mut r = Rng::stream("C18history", &[seed, k]);
+    let l = *r.pick(&[1., 1., 1e-3, 1e3]);
+    let anchor = DVec3::from_array(*r.pick(&[[0., 0., 0.], [-0.5, -0.5, -0.5], [3.3, -7.1, 11.9]])) * l;
+    let width = DVec3::splat(l);
+    let g = anchor + width * (DVec3::splat(0.5) + 0.1 * DVec3::new(r.f() - 0.5, r.f() - 0.5, r.f() - 0.5));
+    // a second generator far outside the region that is touched (its index is the `right_idx` of the artificial planes;
+    // it only matters if a decision were a tie, which the generic offsets avoid)
+    let pts = vec![g, anchor + width * DVec3::new(0.93, 0.07, 0.91)];
+    let c = Case {
+        family: "history".into(),
+        dim: 3,
+        periodic: false,
+        anchor,
+        width,
+        pts: pts.clone(),
+        mask: None,
+        origin: format!("C18history/seed{seed}/case{k}/clips{nclips}"),
+    };
+    let cb = CellBuilder::new(&pts, anchor, width, dimn(3), false);
+    let mut cell = cb.init_cell(0);
+    let sgn = DVec3::new(if r.bool() { 1. } else { -1. }, if r.bool() { 1. } else { -1. }, if r.bool() { 1. } else { -1. });
+    let corner = anchor + width * (DVec3::splat(0.5) + 0.5 * sgn);
+    let inward = -sgn / 3f64.sqrt();
+    let probes_at: Vec<usize> = vec![3, 100, 254, 255, 256, 257, 1000, 4095, 4096, 32766, 32767, 32768, 32769, 65533, 65534, 65535, 65536, 65537, 70000, 131070, 131071, 131072, 131073, 200000, 262143, 262144, 262145];
+    let mut effective = 0usize;
+    let (lo, hi) = (anchor, anchor + width);
+    let mut last_planes: Vec<(DVec3, DVec3)> = vec![];
+    let mut step = 0usize;
+    while effective < nclips && step < 4 * nclips {
+        step += 1;
+        // depth of the cut grows from 1e-4 to 0.25 box widths, strictly increasing; a small random tilt varies which of the
+        // previous vertices go
+        let t = l * (1e-4 + 0.25 * (step as f64) / (nclips as f64 * 1.05));
+        let tilt = DVec3::new(r.f() - 0.5, r.f() - 0.5, r.f() - 0.5) * 2e-6;
+        let n = (inward + tilt).normalize();
+        let p = corner + inward * t;
+        let before = cell.vertices.len() + cell.clipping_planes.len();
+        let planes_before = cell.clipping_planes.len();
+        if let Err(pn) = guarded(|| cb.clip(&mut cell, HalfSpace::new(n, p, Some(1), None))) {
+            rep.violations.push(Violation::new(prop, "c18.history_clip_panics", format!("clip {step} of a long history ({effective} effective clips before) panics at {}:{}: {}", pn.file, pn.line, pn.message), Some(&c), json!({"effective": effective, "step": step})).with_signature(&format!("c18.history_clip_panics:{}", pn.signature())));
+            return;
+        }
+        let _ = before;
+        if cell.clipping_planes.len() > planes_before {
+            effective += 1;
+            last_planes.push((n, p));
+            if last_planes.len() > 6 {
+                last_planes.remove(0);
+            }
+        } else {
+            continue;
+        }
+        rep.count("history_clips", 1);
+        if !probes_at.contains(&effective) {
+            continue;
+        }
+        rep.count("history_probe_points", 1);
+        rep.max("c18.longest_history_probed", effective as f64);
+        // probe planes: (normal into the kept side, point)
+        let opp = anchor + width * (DVec3::splat(0.5) - 0.5 * sgn);
+        let mut e_dir = -sgn;
+        e_dir.z = 0.;
+        let mut edge_pt = opp;
+        edge_pt.z = g.z;
+        let mid_n = DVec3::new(r.gauss(), r.gauss(), r.gauss()).normalize();
+        let probes: Vec<(DVec3, DVec3, &str)> = vec![
+            ((sgn / 3f64.sqrt() + DVec3::new(0.013, -0.007, 0.003)).normalize(), opp + sgn * 0.05 * l, "opposite corner"),
+            ((-e_dir.normalize() + DVec3::new(0.004, 0.009, 0.011)).normalize(), edge_pt - e_dir.normalize() * (-0.07 * l), "edge of two untouched walls"),
+            (mid_n, g + mid_n * 0.01 * l, "through the middle"),
+        ];
+        for (pn_in, pp, what) in probes {
+            // reference: the box, the last shaving planes (the earlier ones are redundant), the probe plane
+            let mut rc = vcore::refcell::RCell::new_box(g, lo, hi);
+            let eps = 64. * f64::EPSILON * (anchor.abs().max_element() + l);
+            for (q, (sn, sp)) in last_planes.iter().enumerate() {
+                rc.clip_plane(-*sn, *sp, vcore::refcell::Key::Gen(100 + q, [0, 0, 0]), eps);
+            }
+            rc.clip_plane(-pn_in, pp, vcore::refcell::Key::Gen(99, [0, 0, 0]), eps);
+            let vref = rc.summary().volume;
+            let mut canon0: Option<BTreeSet<[usize; 3]>> = None;
+            for variant in 0..6usize {
+                let mut var = cell.clone();
+                if variant % 2 == 1 {
+                    var.vertices.reverse();
+                }
+                let rot = variant / 2;
+                for v in var.vertices.iter_mut() {
+                    v.dual.rotate_left(rot);
+                }
+                rep.count("history_probe_clips", 1);
+                match guarded(|| {
+                    cb.clip(&mut var, HalfSpace::new(pn_in, pp, Some(1), None));
+                    var
+                }) {
+                    Err(pn) => {
+                        rep.violations.push(Violation::new(prop, "c18.history_probe_panics", format!("after {effective} effective clips of one cell, clipping a clone by a plane cutting the {what} (storage order {}, dual rotation {rot}) panics at {}:{}: {}", if variant % 2 == 1 { "reversed" } else { "as built" }, pn.file, pn.line, pn.message), Some(&c), json!({"effective": effective, "probe": what, "variant": variant})).with_signature(&format!("c18.history_probe_panics:{}", pn.signature())));
+                        break;
+                    }
+                    Ok(var) => {
+                        if !closed(&var) {
+                            rep.violations.push(Violation::new(prop, "c18.history_not_closed", format!("after {effective} effective clips of one cell, the clip by a plane cutting the {what} leaves a polytope that is not closed"), Some(&c), json!({"effective": effective, "probe": what, "variant": variant})));
+                            break;
+                        }
+                        let v = volume(&var);
+                        let tol = 1e-12 * l * l * l * (1. + anchor.abs().max_element() / l);
+                        rep.max("c18.history_dV_over_tol", (v - vref).abs() / tol);
+                        if !((v - vref).abs() <= tol) {
+                            rep.violations.push(Violation::new(prop, "c18.history_volume", format!("after {effective} effective clips of one cell, the clip by a plane cutting the {what} gives volume {v:e}, brute-force reference {vref:e}"), Some(&c), json!({"effective": effective, "probe": what, "variant": variant})));
+                            break;
+                        }
+                        let cs: BTreeSet<[usize; 3]> = var.vertices.iter().map(|v| canon(v.dual)).collect();
+                        match &canon0 {
+                            None => canon0 = Some(cs),
+                            Some(c0) => {
+                                if *c0 != cs {
+                                    rep.violations.push(Violation::new(prop, "c18.history_different_polytope", format!("after {effective} effective clips, storage order / dual rotation changes the result of the clip cutting the {what}"), Some(&c), json!({"effective": effective, "probe": what, "variant": variant})));
+                                    break;
+                                }
+                            }
+                        }
+                    }
+                }
+            }
+        }
+    }
+    rep.max("c18.longest_history", effective as f64);
+    rep.evaluations += 1;
+    rep.nontrivial.insert(c.hash() ^ (nclips as u64));
+}
+
 pub fn c18(a: &Args, rep: &mut Report) {
     rep.rule = "cases = seeded 3D inputs (uniform, exact lattices with large tie sets, clusters; periodic or not); for 3 cells per input the production clip sequence is replayed step by step with the real clip primitive; before every clip that removes vertices the vertex array is permuted (ALL orders of the removed set for <= 5 removed vertices, 8-40 random full permutations otherwise) and the plane triples rotated, and the canonical result / volume / closedness compared; distinct = distinct input hash; non-trivial = at least one clip removing >= 2 vertices was permuted".into();
     rep.assumptions = vec!["removed sets of more than 5 vertices are sampled, not enumerated".into()];
@@ -523,4 +660,9 @@ pub fn c18(a: &Args, rep: &mut Report) {
     });
     // drums: one clip removes the m vertices of a whole end cap (sampled permutations of a removed set of m)
     drum_cells(a, rep, "C18", &DRUM_QUICK[..20], &DRUM_THOROUGH[..26], |c, rep| one_c18("C18", c, rep));
+    // long histories of one cell
+    if a.leg.is_none() {
+        let lens: Vec<usize> = if a.tier == "thorough" { vec![70000, 70000, 140000, 140000, 270000, 270000, 70000, 140000] } else { vec![70000, 70000, 70000, 140000] };
+        run_parallel(rep, lens.len() as u64, budget(a, 100., 900.), |k, rep| c18_history("C18", a.seed, k, lens[k as usize], rep));
+    }
 }
